@@ -17,16 +17,32 @@ THEOREMS = [
     "GoaktVerif.C33.step_nodeLeft_of_some",
     "GoaktVerif.C33.owner_unique_of_live",
     "GoaktVerif.C33.C33_once_holds",
+    "GoaktVerif.C33.C33_finish_window_holds",
+    "GoaktVerif.C33.finish_reversed_refuted",
     "GoaktVerif.C33.C33_holds",
 ]
 # the C32 plan facts are imported from Lemmas/C32*.lean (no generated file involved)
 GO2LEAN = None
 INPKG = ["actor/zz_verif_c32.go", "actor/zz_verif_c33.go"]
+# ordered calls the model assumes (Model.C33.finishOrder: snapshot deleted BEFORE the job is released, in the
+# worker's finish and in the relocator's abort; NodeLeft handler: snapshot fetched, job registered, then announced
+# and dispatched); re-extracted from the current source on every run
+FACTS = [
+    {"file": "actor/relocation_worker.go",
+     "suffixes": "store.DeletePeerState,system.endRelocation",
+     "expect": {"relocationWorker.finish": ["store.DeletePeerState", "system.endRelocation"]}},
+    {"file": "actor/relocator.go",
+     "suffixes": "store.DeletePeerState,system.endRelocation",
+     "expect": {"relocator.abortRelocation": ["store.DeletePeerState", "system.endRelocation"]}},
+    {"file": "actor/actor_system.go",
+     "suffixes": "clusterStore.GetPeerState,x.beginRelocation,x.publishRelocationStarted,systemGuardian.Tell",
+     "expect": {"actorSystem.handleNodeLeftEvent": ["clusterStore.GetPeerState", "x.beginRelocation", "x.publishRelocationStarted", "systemGuardian.Tell"]}},
+]
 TIMEOUT = 900
 ORACLE_NEEDS_JUDGE = True
 MANIFEST = {
-    "level_text": "Kernel-checked theorems. Item level (C33_accounting_holds, relocate_items, relocateShare_items): for EVERY map iteration order, survivor set, role sets, loads and EVERY environment (which item fails on which node, which batch is rejected by which peer, which lazy release fails) the worker's run produces exactly one record per actor of the snapshot and per relocatable grain - handled by exactly one node, or failed (= listed in the event) - and at most one RelocationFailed event, published exactly when something failed; abort accounting likewise (C33_abort_accounting_holds). Job level (C33_once_holds, inductive invariant inv_step over 13 conjuncts): a NodeLeft while a job is registered leaves the state unchanged; over EVERY history of NodeLeft (duplicates included), order deliveries, spawn failures, completions, worker deaths and Terminated deliveries each departure's relocation ends at most once and gets at most one RelocationFailed event, a queued order or waiting worker always owns the registered job of its address, never two per address, a stale Terminated never aborts a newer job. Tied to the code by differential runs of the REAL relocationWorker.relocate / relocateShare, relocator.Receive (Terminated, Rebalance with failing spawn) and beginRelocation/endRelocation/relocationJob against scripted doubles, with the spec oracle evaluated on the observed trace.",
-    "level_note": "PARTIAL. Parameters, not verified: real cluster membership (cluster.Peers), the transport (a batch whose RPC fails is modelled as not applied by the target; the registry gate that protects against a half-applied batch is outside the model), the peer-side handler (scripted: it reports exactly the failed items), the per-item respawn on the leader (scripted outcome; the real recreateActorFromWire gate is tied in C32). startWorker's successful spawn (tracking + Tell) is replayed by the harness, only the failing-spawn path runs the real code; worker death is modelled as happening before any bookkeeping. Snapshot identity = pointer identity, fresh per departure (true for both shipped stores). The full relocate is map-ordered: exact comparison only on order-independent families (det: every actor pinned to one target; f1: at most one peer down and node-independent item failures), otherwise only the oracle judges the trace.",
+    "level_text": "Kernel-checked theorems. Item level (C33_accounting_holds, relocate_items, relocateShare_items): for EVERY map iteration order, survivor set, role sets, loads and EVERY environment (which item fails on which node, which batch is rejected by which peer, which lazy release fails) the worker's run produces exactly one record per actor of the snapshot and per relocatable grain - handled by exactly one node, or failed (= listed in the event) - and at most one RelocationFailed event, published exactly when something failed; abort accounting likewise (C33_abort_accounting_holds). Job level (C33_once_holds, inductive invariant inv_step over 13 conjuncts): a NodeLeft while a job is registered leaves the state unchanged; over EVERY history of NodeLeft (duplicates included), order deliveries, spawn failures, completions, worker deaths and Terminated deliveries each departure's relocation ends at most once and gets at most one RelocationFailed event, a queued order or waiting worker always owns the registered job of its address, never two per address, a stale Terminated never aborts a newer job; with the code's order of finish (snapshot deleted, then job released) no duplicate NodeLeft before, between or after the two calls starts a relocation (C33_finish_window_holds; the reverse order is refuted). Tied to the code by differential runs of the REAL relocationWorker.relocate / relocateShare, relocator.Receive (Terminated, Rebalance with failing spawn) beginRelocation/endRelocation/relocationJob and handleNodeLeftEvent (snapshot path, duplicates injected from inside DeletePeerState) against scripted doubles, plus call-order facts re-extracted from the source, with the spec oracle evaluated on the observed trace.",
+    "level_note": "PARTIAL. Parameters, not verified: real cluster membership (cluster.Peers), the transport (a batch whose RPC fails is modelled as not applied by the target; the registry gate that protects against a half-applied batch is outside the model), the peer-side handler (scripted: it reports exactly the failed items), the per-item respawn on the leader (scripted outcome; the real recreateActorFromWire gate is tied in C32). startWorker's successful spawn (tracking + Tell) is replayed by the harness, only the failing-spawn path runs the real code; handleNodeLeftEvent is driven on its snapshot path only (crash-recovery path not driven); worker death is modelled as happening before any bookkeeping. Snapshot identity = pointer identity, fresh per departure (true for both shipped stores). The full relocate is map-ordered: exact comparison only on order-independent families (det: every actor pinned to one target; f1: at most one peer down and node-independent item failures), otherwise only the oracle judges the trace.",
     "technique": "Lean 4 proof (permutation accounting composed from the C32 plan theorems; inductive invariant of a transition system) plus model/implementation differential on the real worker with fake peers",
 }
 TRUSTED = [
@@ -36,7 +52,7 @@ TRUSTED = [
 ]
 RULE = ("rl det|f1|any: one full relocate on a snapshot with scripted item failures (L), peer-reported failures (R), rejected batches (X), "
         "Peers error (PE), store error (SD); rs: relocateShare with the same scripts; job raw: random primitive scripts over 2 addresses; "
-        "job sys: protocol-respecting histories generated from the machine; non-trivial = a trace was produced; distinct by (case, output)")
+        "job sys: protocol-respecting histories generated from the machine; nl: real handleNodeLeftEvent duplicates before and inside the worker's DeletePeerState; peers 2k/2k+1 share a host, equal parity shares the port; non-trivial = a trace was produced; distinct by (case, output)")
 
 
 # ---------------------------------------------------------------------------
@@ -254,6 +270,7 @@ def fixed_cases():
         "rs 1 -;2 0 A1.0,2.1,3.2,4.3+G-/A-+G5.e,6 X0:a1;X1:g6;L:a2",
         "rs - - 0 A1.0+G-/A-+G2,3.e X0:a1;L:g2",
         "rs - -;- 1 A1.0+G- -",
+        "nl 0 0", "nl 0 1", "nl 2 0", "nl 1 1", "nl 3 2",
         "job raw b1.11 b1.12 j1 e1 j1 b1.12 j1",
         "job sys b1.1 w1.1.1 t1 j1",
         "job raw b1.1 w1.1.1 e1 b1.2 t1 j1",
@@ -275,6 +292,8 @@ def gen_cases(rng, tier):
         cases.append(rand_rl_any(rng, 120, 6, 60))
     for _ in range(100 if quick else 1000):
         cases.append(rand_rs(rng))
+    for _ in range(6 if quick else 40):
+        cases.append(f"nl {rng.randint(0, 4)} {rng.randint(0, 3)}")
     for _ in range(60 if quick else 600):
         cases.append(rand_job_raw(rng, rng.randint(3, 14)))
     for _ in range(60 if quick else 600):
